@@ -491,6 +491,10 @@ impl<'a> Harness<'a> {
         Ok(())
     }
 
+    pub fn set_tag(&mut self, tag: u32) {
+        self.tag = tag;
+    }
+
     pub fn tree(&self) -> &LsmTree {
         match self.surface {
             Surface::Kvs => self.kvs.as_ref().unwrap().verif_tree(),
